@@ -98,6 +98,24 @@ class C20:
                {"op": "handle", "n": "c", "layer": upd_layer("new program")}]
         h = C02P.to_harness({"id": 0, "names": NAMES, "ops": ops})
         cases.append({"kind": 2, "names": h["names"], "ops": h["ops"], "probes": PROBES})
+        # a failed call: ONE exec.d program whose source file is missing (no unordered container involved, so the
+        # failure and whatever it leaves behind are a function of the inputs); the trees are compared although an
+        # operation failed -- a later build finds that directory
+        def missing_layer(strategy):
+            good = {"md": {"version": "1"}, "env": [], "execd": [[bl("p1"), [0o755, bl("prog")]]], "sboms": [], "files": [[[bl("f")], bl("x")]]}
+            bad = dict(good, execd=[[bl("gone"), None]])
+            return {"types": {"launch": True, "build": False, "cache": True}, "m": "G", "strategy": strategy, "migrate": {"d": "recreate"},
+                    "create": bad if strategy == "create" else good, "update": bad}
+        for strat, ops in (("create", [{"op": "handle", "n": "c", "layer": missing_layer("create")}]),
+                           ("update", [{"op": "handle", "n": "c", "layer": missing_layer("update")}, {"op": "restore"},
+                                       {"op": "handle", "n": "c", "layer": missing_layer("update")}])):
+            h = C02P.to_harness({"id": 0, "names": NAMES, "ops": ops})
+            cases.append({"kind": 2, "names": h["names"], "ops": h["ops"], "probes": PROBES, "cmp_failed": True})
+        req = {"op": "req", "n": "a", "q": {"kind": "cached", "launch": True, "build": False, "m": "G",
+                                            "inv": {"d": "delete", "cause": 1}, "res": {"d": "keep", "cause": 2}},
+               "writes": [{"w": "file", "rel": [bl("bin"), bl("tool")], "data": bl("t")}, {"w": "execd", "progs": [[bl("gone"), None]]}]}
+        h = C01P.to_harness({"id": 0, "names": NAMES, "ops": [req, {"op": "restore"}, req]})
+        cases.append({"kind": 1, "names": h["names"], "ops": h["ops"], "probes": PROBES, "cmp_failed": True})
         subsets = [["cdx", "spdx", "syft"], ["syft"], []]
         for la, st, bs, ls in itertools.product([True, False], [True, False], subsets, subsets):
             cases.append({"kind": 5, "cfg": base_cfg(exe="build", nargs=3, store="ok", pre=True,
